@@ -143,6 +143,10 @@ func expandLayout(layout string, n int, seed uint64) []geometry.Point {
 		for i := range pts {
 			pts[i] = geometry.Point{X: float64(r.next() % 17), Y: float64(r.next() % 17)}
 		}
+	case "dyadic": // a closed walk on the k/16 grid of the unit square: every vertex sits on some quad mid-line
+		for i := range pts {
+			pts[i] = geometry.Point{X: float64(r.next()%17) / 16, Y: float64(r.next()%17) / 16}
+		}
 	case "wide": // wide exponent range
 		for i := range pts {
 			pts[i] = geometry.Point{X: math.Ldexp(r.unit()-0.5, int(r.next()%120)-60), Y: math.Ldexp(r.unit()-0.5, int(r.next()%120)-60)}
@@ -563,7 +567,7 @@ func c04Rev(l *geometry.Line, g geometry.Geometry) bool {
 	return false
 }
 
-var c04Layouts = []string{"huge", "huge-mixed", "uniform", "clustered", "collinear-h", "collinear-v", "diagonal", "identical", "duplicates", "spiral", "lattice", "wide", "ring"}
+var c04Layouts = []string{"dyadic", "lattice", "huge", "huge-mixed", "uniform", "clustered", "collinear-h", "collinear-v", "diagonal", "identical", "duplicates", "spiral", "lattice", "wide", "ring"}
 
 func c04Sizes(tier string) []int {
 	s := []int{0, 1, 2, 3, 4, 5, 31, 32, 33, 34, 63, 64, 65, 254, 255, 256, 257, 258, 1000}
@@ -686,7 +690,13 @@ func c04GenSmall(t *rapid.T) c04Case {
 	n := len(c.points())
 	c.MinPoints = rapid.SampledFrom([]int{1, 1, n, n + 1, 64, -1}).Draw(t, "minpoints")
 	c.MoveDX = float64(rapid.IntRange(-8, 8).Draw(t, "mdx"))
+	if rapid.Bool().Draw(t, "mdxinexact") {
+		c.MoveDX = rapid.SampledFrom([]float64{0.1, -0.3, 1e-3, 0.7, 12.345}).Draw(t, "mdxf")
+	}
 	c.MoveDY = rapid.Float64Range(-100, 100).Draw(t, "mdy")
+	if rapid.IntRange(0, 2).Draw(t, "mdysimple") == 0 {
+		c.MoveDY = rapid.SampledFrom([]float64{0.1, 0, -0.3, 0.7, 5}).Draw(t, "mdyf")
+	}
 	c.Queries = genQueries(t, c.points(), c.Closed, rapid.IntRange(4, 30).Draw(t, "nq"))
 	return c
 }
@@ -747,9 +757,9 @@ func c04Subs() []fw.Sub {
 			Name: "search-small",
 			Checks: func(tier string) int {
 				if tier == "thorough" {
-					return 6000
+					return 8000
 				}
-				return 500
+				return 900
 			},
 			Gen: c04GenSmall, Check: c04Check, Shrink: c04Shrink,
 		},
